@@ -114,6 +114,15 @@ fn main() {
     }
     Ok(())
   });
+  w("cd_reference_resolves_to_the_referenced_method", || {
+    // two general-purpose methods with the same fragment under different DIDs; the relationship references the SECOND one
+    let (a, b) = ("did:example:doc", "did:example:other");
+    let json = format!(r#"{{"id":"{a}","verificationMethod":[{},{}],"authentication":["{b}#k"]}}"#, jwk_method(a, "k"), jwk_method(b, "k"));
+    let d = match CoreDocument::from_json(&json) { Ok(d) => d, Err(e) => return Err(format!("setup rejected: {e}")) };
+    let m = d.resolve_method(&DIDUrl::parse(format!("{b}#k")).unwrap(), Some(MethodScope::VerificationRelationship(MethodRelationship::Authentication))).ok_or("reference does not resolve under its relationship")?;
+    if m.id().to_string() != format!("{b}#k") { return Err(format!("reference to {b}#k resolves to {}", m.id())); }
+    Ok(())
+  });
   w("cd_attach_detach_exact", || {
     for (rel, name) in RELS { for (rel2, name2) in RELS {
       let mut d = doc();
